@@ -783,7 +783,12 @@ func Storm(r *rand.Rand, rounds int) []Input {
 func Random(r *rand.Rand, n int) []Input {
 	fib := r.Intn(2) == 0
 	elected := r.Intn(4) != 0
-	ins := []Input{{A: "new", Fib: fib, Elected: elected, Params: r.Intn(8) != 0, Elec: []int{0, 1 + r.Intn(3)}}, {A: "connect"}}
+	ins := []Input{{A: "new", Fib: fib, Elected: elected, Params: r.Intn(8) != 0, Elec: []int{0, 1 + r.Intn(3)}}}
+	// fluent queues before it connects: in half of the sequences Connect comes after a few Q calls
+	late := r.Intn(2) == 0
+	if !late {
+		ins = append(ins, Input{A: "connect"})
+	}
 	var id uint64
 	open := map[uint64]string{} // ids outstanding -> last status delivered
 	started := false
@@ -814,6 +819,16 @@ func Random(r *rand.Rand, n int) []Input {
 			}
 		}
 		return out
+	}
+	if late {
+		for i, k := 0, 1+r.Intn(3); i < k; i++ {
+			m := mk()
+			if i > 0 && r.Intn(2) == 0 {
+				m.Ops[0].ID = 1 // clashes with a pending id: a recorded send error that Connect must not lose
+			}
+			ins = append(ins, Input{A: "q", M: m})
+		}
+		ins = append(ins, Input{A: "connect"})
 	}
 	for len(ins) < n {
 		x := r.Intn(100)
